@@ -64,6 +64,26 @@ Theorem C20_first_full_limit : forall (I X : Type) (pk : I -> Z -> Z * I * list 
 Proof. exact @poll_inner_first. Qed.
 Print Assumptions C20_first_full_limit.
 
+(* ... and when it is given a positive limit it leaves behind at least the first committed frame at its position, be it
+   data or the padding frame that closes a term (slot_ok / os_wf: the image of a well-formed harness slot at a position
+   where the property speaks; os_frames: the committed frames visible at its position).  Together with C20_fair: an image
+   with frames at its position moves forward at least once in any n+1 consecutive calls with a positive limit, so an image
+   standing on an end-of-term padding frame reaches the data of the next term within 2(n+1) calls.
+   (controlled_poll: unless the first frame is a data frame that the handler answers Abort.) *)
+Theorem C20_starting_image_advances : forall sl lim,
+  slot_ok sl -> im_closed (slot_image sl) = false -> os_wf (oslot_of sl) = true ->
+  0 < lim -> os_frames (oslot_of sl) <> [] ->
+  let '(n, sl', ds) := pk_poll sl lim in im_pos (slot_image sl) < im_pos (slot_image sl').
+Proof. exact poll_advances. Qed.
+Print Assumptions C20_starting_image_advances.
+
+Theorem C20_starting_image_advances_controlled : forall salt tab sl lim,
+  slot_ok sl -> im_closed (slot_image sl) = false -> os_wf (oslot_of sl) = true ->
+  0 < lim -> must_advance (script_for salt tab sl) (os_frames (oslot_of sl)) = true ->
+  let '(n, sl', ds) := pk_cpoll salt tab sl lim in im_pos (slot_image sl) < im_pos (slot_image sl').
+Proof. exact cpoll_advances. Qed.
+Print Assumptions C20_starting_image_advances_controlled.
+
 (* images added or removed between calls: whatever the index was, the next starting index is inside the list *)
 Theorem C20_index_in_range : forall len rr, 0 <= len -> 0 <= rr ->
   let '(s, rr') := rr_next len rr in (0 < len -> 0 <= s < len) /\ 0 <= rr' <= len.
@@ -128,6 +148,33 @@ Proof. unfold case_ok. split; [|split].
   - repeat constructor; cbn; lia.
   - repeat constructor; cbn; intuition lia.
   - repeat constructor. Qed.
+
+(* fairness across a term end: image 1 (session 88) has caught up and stands exactly on the padding frame that closes its
+   term 2 while images 0 and 2 always have data; limit 1.  Call 2 starts with image 1: it consumes the padding (no fragment,
+   position 196608 = start of term 3) and the rest of the budget goes to image 2; the publisher continues in term 3 (roll);
+   when image 1 starts again (call 7) it is served the first fragment of term 3. *)
+Definition pad_slots : list sslot :=
+  [(16, 5, 77, 0, (0, 0, 5, false, [(1, 128, 96, 1, 0); (1, 0, 96, 2, 0); (1, 64, 40, 3, 0); (1, 192, 50, 4, 0); (1, 192, 60, 5, 0)]));
+   (16, 2147483647, 88, 2 * 65536 + 4096 + 64, (2, 4096, 2, false, [(1, 192, 50, 20, 0); (0, 0, 65536 - 4096 - 64, 0, 0)]));
+   (16, -3, 99, 131072, (2, 0, 4, false, [(1, 192, 40, 12, 0); (1, 192, 41, 13, 0); (1, 192, 42, 14, 0); (1, 192, 43, 15, 0)]))].
+Definition pad_ops : list sop :=
+  [SPoll 1; SPoll 1; SPoll 1; SPoll 1; SRoll 1 3 false [(1, 128, 96, 21, 0); (1, 64, 40, 22, 0); (1, 192, 44, 23, 0)];
+   SPoll 1; SPoll 1; SPoll 1].
+Example C20_padding_example :
+  case_ok pad_slots pad_ops /\
+  map (fun ob : sobs => let '(ret, raws, _, ps) := ob in (ret, map fo_session raws, ps)) (run_sub_case Debug pad_slots [0; 1; 2] pad_ops)
+  = [(Ok 1, [77], [96; 135232; 131072]);
+     (Ok 1, [99], [96; 196608; 131136]);
+     (Ok 1, [99], [96; 196608; 131200]);
+     (Ok 1, [77], [192; 196608; 131200]);
+     (Ok 0, [], [192; 196608; 131200]);
+     (Ok 1, [77], [256; 196608; 131200]);
+     (Ok 1, [88], [256; 196704; 131200]);
+     (Ok 1, [99], [256; 196704; 131264])].
+Proof. split; [|vm_compute; reflexivity]. unfold case_ok. split; [|split].
+  - repeat constructor; cbn; lia.
+  - repeat constructor; cbn; intuition lia.
+  - repeat constructor; cbn; lia. Qed.
 
 Example C20_fair_example : fst (rr_run 3 0 8) = [0; 1; 2; 0; 0; 1; 2; 0] /\ fst (rr_run 3 2 4) = [2; 0; 0; 1].
 Proof. split; reflexivity. Qed.
